@@ -740,3 +740,143 @@ func ZZC01Print() {
 	zzReach("print-ok")
 	zzWitness("end")
 }
+
+// ---- == and != on nested arrays and maps ----
+
+func (v *zzPV) clone() *zzPV {
+	c := *v
+	c.el = nil
+	for _, e := range v.el {
+		c.el = append(c.el, e.clone())
+	}
+	c.keys = append([]string{}, v.keys...)
+	return &c
+}
+
+// reverseMaps: the same value with the pairs of every map written in the opposite order.
+func (v *zzPV) reverseMaps() {
+	for _, e := range v.el {
+		e.reverseMaps()
+	}
+	if v.kind == "map" {
+		for i, j := 0, len(v.el)-1; i < j; i, j = i+1, j-1 {
+			v.el[i], v.el[j] = v.el[j], v.el[i]
+			v.keys[i], v.keys[j] = v.keys[j], v.keys[i]
+		}
+	}
+}
+
+// changeLeaf replaces the n-th leaf by another value of the same kind; reports whether there was one.
+func (v *zzPV) changeLeaf(n *int, a, b float64) bool {
+	switch v.kind {
+	case "num", "str", "bool":
+		if *n > 0 {
+			*n--
+			return false
+		}
+		switch v.kind {
+		case "num":
+			if zzSameBits(v.f, a) {
+				v.f = b
+			} else {
+				v.f = a
+			}
+		case "str":
+			v.s += "!"
+		case "bool":
+			v.b = !v.b
+		}
+		return true
+	}
+	for _, e := range v.el {
+		if e.changeLeaf(n, a, b) {
+			return true
+		}
+	}
+	return false
+}
+
+// zzPVEqual: deep equality; maps compare as sets of pairs, numbers by ==.
+func zzPVEqual(v, w *zzPV) bool {
+	if v.kind != w.kind || len(v.el) != len(w.el) {
+		return false
+	}
+	switch v.kind {
+	case "num":
+		return v.f == w.f
+	case "str":
+		return v.s == w.s
+	case "bool":
+		return v.b == w.b
+	case "arr":
+		for i := range v.el {
+			if !zzPVEqual(v.el[i], w.el[i]) {
+				return false
+			}
+		}
+		return true
+	}
+	for i, k := range v.keys {
+		found := false
+		for j, k2 := range w.keys {
+			if k == k2 {
+				found = true
+				if !zzPVEqual(v.el[i], w.el[j]) {
+					return false
+				}
+			}
+		}
+		if !found {
+			return false
+		}
+	}
+	return true
+}
+
+// ZZC01Equal: == and != on every value tree up to depth ED against the same
+// tree, the tree with every map written in the opposite order, and the tree
+// with one leaf changed: equality is deep, ignores the order of map pairs and
+// compares numbers by value.
+func ZZC01Equal() {
+	a, b := zzFloat64("a"), zzFloat64("b")
+	zzAssume(!zzSameBits(a, b))
+	v := zzPVGen(0, zzParam("ED", 2), a, b)
+	if v.kind != "arr" && v.kind != "map" {
+		zzAssume(false)
+	}
+	w := v.clone()
+	switch zzChoice("variant", 3) {
+	case 1:
+		w.reverseMaps()
+	case 2:
+		n := zzChoice("leaf", 3)
+		if !w.changeLeaf(&n, a, b) {
+			zzAssume(false)
+		}
+		if zzChoice("alsoreverse", 2) == 1 {
+			w.reverseMaps()
+		}
+	}
+	src := "a := 1\nb := 2\nx := " + v.lit(a) + "\ny := " + w.lit(a) + "\nprint (x == y) (x != y) (y == x) ([x] == [y])\nprint a b\n"
+	p := &zzPlat{}
+	ev := NewEvaluator(p)
+	prog := zzMustParse(ev, src, "C01 equal")
+	if prog == nil {
+		return
+	}
+	zzSetNum(prog, 0, a)
+	zzSetNum(prog, 1, b)
+	err := ev.Eval(prog)
+	zzAssert(err == nil, "C01 equal: program runs")
+	if err != nil {
+		return
+	}
+	eq := zzPVEqual(v, w)
+	want := "print:" + strconv.FormatBool(eq) + " " + strconv.FormatBool(!eq) + " " + strconv.FormatBool(eq) + " " + strconv.FormatBool(eq) + "\n"
+	if p.trace[0] != want {
+		zzLog("C01 equal: " + src + "want " + want + "got " + p.trace[0])
+	}
+	zzAssert(p.trace[0] == want, "C01 equal: == on arrays and maps is deep, ignores the order of map pairs and is symmetric")
+	zzReach("equal-ok")
+	zzWitness("end")
+}
